@@ -51,7 +51,7 @@ func TestVerifC19Collector(t *testing.T) {
 	log := logger.NewLogger(0)
 	log.Silent(true)
 	rng := kit.NewRNG(kit.Mix(kit.Seed(), 0xC19C))
-	ncases := kit.Scale(120, 1500)
+	ncases := kit.Scale(120, 4000)
 	ids := map[string]int{}
 	for i := 0; i < ncases; i++ {
 		rep.Eval()
